@@ -77,18 +77,19 @@ func (c *ctx) walk(u *universe, o walkOpts) {
 		total := o.Ops + len(cover)
 		for i := 0; i < total; i++ {
 			var op *worldOp
-			fromTour := false
+			fromTour, special := false, false
 			switch {
 			case i < len(cover):
 				op = &worldOp{Kind: opTx, Call: cover[i]}
 			case len(pending) > 0:
 				op, pending = pending[0], pending[1:]
 				total++
+				special = true
 			case ti < len(tour):
 				op = tour[ti]()
 				ti++
 				total++
-				fromTour = true
+				fromTour, special = true, true
 			default:
 				op = g.randomOp()
 			}
@@ -126,7 +127,9 @@ func (c *ctx) walk(u *universe, o walkOpts) {
 			for _, m := range o.Monitors {
 				m(c, w, pre, sr, hist)
 			}
-			if (o.EmitProb <= 1 || c.rng.Intn(o.EmitProb) == 0) && (o.MaxCases == 0 || emitted < o.MaxCases) {
+			if special { // tour steps and their deliveries are always re-evaluated by the model
+				c.addExecCase(w, sr.Call, sr.Res)
+			} else if (o.EmitProb <= 1 || c.rng.Intn(o.EmitProb) == 0) && (o.MaxCases == 0 || emitted < o.MaxCases) {
 				c.addExecCase(w, sr.Call, sr.Res)
 				emitted++
 			}
